@@ -521,3 +521,51 @@ MUTANTS += [
     M("c19-has-reports-supported", ["C19"], CONN, "	return conn.currCaps.Has(cap)", "	return conn.currCaps.Has(cap) || conn.supportedCaps.Has(cap) && conn.currCaps.Size() > 2"),
     M("c19-plain-empty-plus", ["C19"], H, "		if len(conn.saslRemainingData) > 0 {", "		if len(conn.saslRemainingData) > 2 {", note="a two-byte PLAIN response (empty user and password) is sent as '+'"),
 ]
+
+MUTANTS += [
+    # ---- C14
+    M("c14-nick-shares-modes", ["C14"], NK, "		Modes:    nk.modes.Copy(),", "		Modes:    nk.modes,"),
+    M("c14-channel-shares-privs", ["C14"], CH, "		c.Nicks[n.nick] = cp.Copy()", "		c.Nicks[n.nick] = cp"),
+    M("c14-ison-returns-live", ["C14"], NK, "	cp, ok := nk.chans[ch]\n	return cp.Copy(), ok", "	cp, ok := nk.chans[ch]\n	return cp, ok"),
+    M("c14-associate-returns-live", ["C14"], TR, "	nk.addChannel(ch, cp)\n	return cp.Copy()", "	nk.addChannel(ch, cp)\n	return cp"),
+    M("c14-getnick-no-mutex", ["C14"], TR, """func (st *stateTracker) GetNick(n string) *Nick {
+	st.mu.Lock()
+	defer st.mu.Unlock()""", """func (st *stateTracker) GetNick(n string) *Nick {"""),
+    M("c14-ison-no-mutex", ["C14"], TR, """func (st *stateTracker) IsOn(c, n string) (*ChanPrivs, bool) {
+	st.mu.Lock()
+	defer st.mu.Unlock()""", """func (st *stateTracker) IsOn(c, n string) (*ChanPrivs, bool) {"""),
+    M("c14-me-cached", ["C14", "C12"], TR, """func (st *stateTracker) Me() *Nick {
+	st.mu.Lock()
+	defer st.mu.Unlock()
+	return st.me.Nick()""", """var cachedMe *Nick
+
+func (st *stateTracker) Me() *Nick {
+	st.mu.Lock()
+	defer st.mu.Unlock()
+	if cachedMe == nil || cachedMe.Nick != st.me.nick {
+		cachedMe = st.me.Nick()
+	}
+	return cachedMe""", note="stale snapshot until the nick changes; the same object is handed out repeatedly"),
+    M("c14-chanmode-copy-shallow", ["C14"], CH, """func (cm *ChanMode) Copy() *ChanMode {
+	if cm == nil {
+		return nil
+	}
+	c := *cm
+	return &c""", """func (cm *ChanMode) Copy() *ChanMode {
+	return cm"""),
+    M("c14-dissociate-two-step-lock", ["C14"], TR, """func (st *stateTracker) Dissociate(c, n string) {
+	st.mu.Lock()
+	defer st.mu.Unlock()
+	nk, nok := st.nicks[n]
+	ch, cok := st.chans[c]
+""", """func (st *stateTracker) Dissociate(c, n string) {
+	st.mu.Lock()
+	nk, nok := st.nicks[n]
+	ch, cok := st.chans[c]
+	st.mu.Unlock()
+	runtime_Gosched()
+	st.mu.Lock()
+	defer st.mu.Unlock()
+""", expect="skip"),
+]
+MUTANTS = [m for m in MUTANTS if m.get("expect") != "skip"]
